@@ -16,6 +16,15 @@ Part 2: the pinned-commit code (`Legacy.tumble`) was sound but not total: `legac
 Part 3: `group_by_window` / `group_by_key_and_window` for EVERY list of partitions: distinct keys, each
 group is exactly the sub-list of the input belonging to that window (and key), nothing lost or
 duplicated, independent of the partitioning (so seq = par for every partition count).
+Part 3a: `key_by_window` (unkeyed / keyed) is a 1:1 order-preserving relabelling whose key is exactly
+`tumble ts size off` (`keyByWindow_exact`, `keyByKeyAndWindow_exact`, `…_element`, `…_none_iff`), over any
+partition list (`keyByWindowPar_eq`); composed corollaries for the engine's own split `sourceParts xs n`
+vs the sequential run, for every `n`: `keyByWindow_seq_eq_par`, `groupByWindow_seq_eq_par`,
+`groupByKeyAndWindow_seq_eq_par` (same rows up to hash-map row order, identical group contents).
+
+Which model is validated against what: see the header of `Model/Window.lean`.  `tumbleWrapping`,
+`Legacy.tumble` and `Legacy.tumbleWrapping` are compared with the real source text compiled under the
+corresponding arithmetic profile (`TUMBLE-WRAP`, `TUMBLE-LEGACY`, `TUMBLE-LEGACY-WRAP`).
 -/
 namespace IB.Window
 
@@ -134,6 +143,34 @@ theorem tumbleWrapping_eq (ts size off : Nat) (w : Window) (hts : ts < U64)
     unfold wAdd U64 at *; omega
   simp only [e2, e3, e4]
 
+/-- … and on the rest of the `u64` domain with `size ≥ 1` (where the checked build panics because no
+    representable window exists) the release build does **not** panic: it silently returns a window
+    that violates the property (wrapped start or end).  So "no representable window" is a panic in
+    overflow-checking builds and a garbage window in release builds — never a correct answer. -/
+theorem tumbleWrapping_garbage_on_none_domain (ts size off : Nat) (hsize : 1 ≤ size)
+    (h : tumble ts size off = none) :
+    ∃ w, tumbleWrapping ts size off = some w ∧ w.stop < U64 ∧ ¬ Good w ts size off := by
+  have hs : size ≠ 0 := by omega
+  have hU : 0 < U64 := by decide
+  obtain ⟨k, hk⟩ : ∃ k, divFloorWrapping (wSub ts (off % size)) size = some k := by
+    unfold divFloorWrapping
+    simp only [hs, if_false]
+    split <;> exact ⟨_, rfl⟩
+  have hw : tumbleWrapping ts size off =
+      some ⟨wAdd (wMul k size) (off % size), wAdd (wAdd (wMul k size) (off % size)) size⟩ := by
+    unfold tumbleWrapping
+    simp only [hs, if_false, hk]
+  have hfit : wAdd (wAdd (wMul k size) (off % size)) size < U64 := Nat.mod_lt _ hU
+  refine ⟨_, hw, hfit, fun hg => ?_⟩
+  rw [tumble_complete ts size off _ hg hfit] at h
+  cases h
+
+/-- witnesses (kernel-evaluated): below the phase the release build wraps the start, at the top it
+    wraps the end; `size = 0` panics in both builds (`offset_ms % 0`) -/
+example : tumble 3 10 5 = none ∧ tumbleWrapping 3 10 5 = some ⟨18446744073709551615, 9⟩ ∧
+    tumble (U64 - 1) 1 0 = none ∧ tumbleWrapping (U64 - 1) 1 0 = some ⟨U64 - 1, 0⟩ ∧
+    tumbleWrapping 5 0 0 = none := by decide
+
 /-! ## Part 2 — the pinned-commit code (`rel = ts - offset_ms`) -/
 
 /-- the old code was sound where it returned … -/
@@ -203,6 +240,14 @@ theorem window_cmp_trans (a b c : Window) (h1 : a.cmpImpl b = .lt) (h2 : b.cmpIm
   cases a; cases b; cases c
   simp only [Window.cmpImpl, Ordering.then_eq_lt, Nat.compare_eq_lt, Nat.compare_eq_eq] at *
   omega
+
+/-- `impl PartialOrd` is the total order: never `None`, always `Some(cmp)`, hence `Some(Equal)` iff
+    the windows are equal -/
+theorem window_partial_cmp (a b : Window) :
+    a.partialCmpImpl b = some (a.cmpImpl b) ∧ (a.partialCmpImpl b = some .eq ↔ a = b) := by
+  refine ⟨rfl, ?_⟩
+  simp only [Window.partialCmpImpl, Option.some.injEq]
+  exact window_cmp_eq_iff a b
 
 /-! ## Part 3 — grouping by window / by key and window, for every partitioning -/
 
@@ -466,6 +511,179 @@ theorem sourceParts_flatten {α : Type} (xs : List α) (n : Nat) : (sourceParts 
     apply chunks _ _ _ _ (Nat.le_refl _)
     have : 0 < min (max n 1) (max xs.length 1) := by omega
     exact Nat.div_pos (by omega) this
+
+/-! ### `key_by_window` (unkeyed and keyed): a 1:1, order-preserving relabelling -/
+
+/-- C13 (`PCollection<Timestamped<T>>::key_by_window` on one partition): the map returns `ys` **iff**
+    `ys` has exactly one row per input element, in input order, each row carrying the element's
+    unchanged value and — as its key — exactly `Window::tumble(ev.ts, size, off)`.
+    Nothing is dropped, duplicated, reordered or re-keyed. -/
+theorem keyByWindow_exact (size off : Nat) (xs : List (Timestamped β)) (ys : List (Window × β)) :
+    keyByWindow size off xs = some ys ↔
+      ys.length = xs.length ∧ ys.map Prod.snd = xs.map (fun ev => ev.value) ∧
+      ys.map (fun r => some r.1) = xs.map (fun ev => tumble ev.ts size off) := by
+  unfold keyByWindow
+  rw [mapAll_eq_some_iff]
+  induction xs generalizing ys with
+  | nil => cases ys <;> simp
+  | cons x xs ih =>
+    cases ys with
+    | nil => simp
+    | cons y ys =>
+      obtain ⟨w, v⟩ := y
+      simp only [List.map_cons, List.cons.injEq, ih ys, List.length_cons, Nat.add_right_cancel_iff]
+      have hx : windowKey size off x = some (w, v) ↔ (v = x.value ∧ some w = tumble x.ts size off) := by
+        unfold windowKey keyed windowOf
+        cases tumble x.ts size off with
+        | none => simp
+        | some w' => simp only [Option.map_some, Option.some.injEq, Prod.mk.injEq]; grind
+      rw [hx]
+      grind
+
+/-- position by position: row `i` of the output is `(tumble xs[i].ts, xs[i].value)`, and its key is the
+    window with the four properties of C13 for `xs[i].ts` -/
+theorem keyByWindow_element (size off : Nat) (xs : List (Timestamped β)) (ys : List (Window × β))
+    (h : keyByWindow size off xs = some ys) (i : Nat) (hx : i < xs.length) :
+    ∃ hy : i < ys.length, tumble xs[i].ts size off = some ys[i].1 ∧ ys[i].2 = xs[i].value ∧
+      Good ys[i].1 xs[i].ts size off := by
+  obtain ⟨hl, hv, hk⟩ := (keyByWindow_exact size off xs ys).mp h
+  have hy : i < ys.length := by omega
+  have e1 := congrArg (fun l => l[i]?) hv
+  have e2 := congrArg (fun l => l[i]?) hk
+  simp only [List.getElem?_map, List.getElem?_eq_getElem hx, List.getElem?_eq_getElem hy,
+    Option.map_some, Option.some.injEq] at e1 e2
+  exact ⟨hy, e2.symm, e1, tumble_sound _ _ _ _ e2.symm⟩
+
+/-- `key_by_window` panics iff some element has no representable window -/
+theorem keyByWindow_none_iff (size off : Nat) (xs : List (Timestamped β)) :
+    keyByWindow size off xs = none ↔ ∃ ev ∈ xs, tumble ev.ts size off = none := by
+  unfold keyByWindow
+  rw [mapAll_eq_none_iff]
+  have hx : ∀ ev : Timestamped β, windowKey size off ev = none ↔ tumble ev.ts size off = none := by
+    intro ev
+    unfold windowKey keyed windowOf
+    cases tumble ev.ts size off <;> simp
+  simp only [hx]
+
+omit [DecidableEq κ] in
+/-- C13 (keyed `PCollection<(K, Timestamped<V>)>::key_by_window` on one partition): one row per input
+    element, in input order, with the element's unchanged key and value, and `Window::tumble(ts, size,
+    off)` of its timestamp as the window part of the new key. -/
+theorem keyByKeyAndWindow_exact (size off : Nat) (xs : List (κ × Timestamped β))
+    (ys : List ((κ × Window) × β)) :
+    keyByKeyAndWindow size off xs = some ys ↔
+      ys.length = xs.length ∧
+      ys.map (fun r => (r.1.1, r.2)) = xs.map (fun kv => (kv.1, kv.2.value)) ∧
+      ys.map (fun r => some r.1.2) = xs.map (fun kv => tumble kv.2.ts size off) := by
+  unfold keyByKeyAndWindow
+  rw [mapAll_eq_some_iff]
+  induction xs generalizing ys with
+  | nil => cases ys <;> simp
+  | cons x xs ih =>
+    cases ys with
+    | nil => simp
+    | cons y ys =>
+      obtain ⟨⟨k, w⟩, v⟩ := y
+      simp only [List.map_cons, List.cons.injEq, ih ys, List.length_cons, Nat.add_right_cancel_iff]
+      have hx : keyWindowKey size off x = some ((k, w), v) ↔
+          ((k, v) = (x.1, x.2.value) ∧ some w = tumble x.2.ts size off) := by
+        unfold keyWindowKey keyed keyWindowOf
+        cases tumble x.2.ts size off with
+        | none => simp
+        | some w' => simp only [Option.map_some, Option.some.injEq, Prod.mk.injEq]; grind
+      rw [hx]
+      grind
+
+omit [DecidableEq κ] in
+/-- position by position, keyed variant -/
+theorem keyByKeyAndWindow_element (size off : Nat) (xs : List (κ × Timestamped β))
+    (ys : List ((κ × Window) × β)) (h : keyByKeyAndWindow size off xs = some ys)
+    (i : Nat) (hx : i < xs.length) :
+    ∃ hy : i < ys.length, ys[i].1.1 = xs[i].1 ∧ tumble xs[i].2.ts size off = some ys[i].1.2 ∧
+      ys[i].2 = xs[i].2.value ∧ Good ys[i].1.2 xs[i].2.ts size off := by
+  obtain ⟨hl, hv, hk⟩ := (keyByKeyAndWindow_exact size off xs ys).mp h
+  have hy : i < ys.length := by omega
+  have e1 := congrArg (fun l => l[i]?) hv
+  have e2 := congrArg (fun l => l[i]?) hk
+  simp only [List.getElem?_map, List.getElem?_eq_getElem hx, List.getElem?_eq_getElem hy,
+    Option.map_some, Option.some.injEq, Prod.mk.injEq] at e1 e2
+  exact ⟨hy, e1.1, e2.symm, e1.2, tumble_sound _ _ _ _ e2.symm⟩
+
+omit [DecidableEq κ] in
+/-- keyed `key_by_window` panics iff some element has no representable window -/
+theorem keyByKeyAndWindow_none_iff (size off : Nat) (xs : List (κ × Timestamped β)) :
+    keyByKeyAndWindow size off xs = none ↔ ∃ kv ∈ xs, tumble kv.2.ts size off = none := by
+  unfold keyByKeyAndWindow
+  rw [mapAll_eq_none_iff]
+  have hx : ∀ kv : κ × Timestamped β, keyWindowKey size off kv = none ↔ tumble kv.2.ts size off = none := by
+    intro kv
+    unfold keyWindowKey keyed keyWindowOf
+    cases tumble kv.2.ts size off <;> simp
+  simp only [hx]
+
+/-- `key_by_window(..).collect` over ANY partition list = the one-partition map on the concatenated
+    input (same panic behaviour, same rows, same order) -/
+theorem keyByWindowPar_eq (size off : Nat) (parts : List (List (Timestamped β))) :
+    keyByWindowPar size off parts = keyByWindow size off parts.flatten :=
+  mapAll_parts_flatten _ parts
+
+omit [DecidableEq κ] in
+theorem keyByKeyAndWindowPar_eq (size off : Nat) (parts : List (List (κ × Timestamped β))) :
+    keyByKeyAndWindowPar size off parts = keyByKeyAndWindow size off parts.flatten :=
+  mapAll_parts_flatten _ parts
+
+/-! ### the composed corollaries: the engine's own partitioning vs the sequential run -/
+
+omit [DecidableEq κ] in
+/-- C13 (both execution modes, `key_by_window`): for every partition count `n`, `collect_par` over
+    `exec_par`'s split of the source returns exactly what `collect_seq` returns — the same panic or the
+    same rows in the same order — for the unkeyed and the keyed helper. -/
+theorem keyByWindow_seq_eq_par (size off : Nat) (xs : List (Timestamped β))
+    (kxs : List (κ × Timestamped β)) (n : Nat) :
+    keyByWindowPar size off (sourceParts xs n) = keyByWindowPar size off [xs] ∧
+    keyByKeyAndWindowPar size off (sourceParts kxs n) = keyByKeyAndWindowPar size off [kxs] := by
+  simp only [keyByWindowPar_eq, keyByKeyAndWindowPar_eq, sourceParts_flatten, List.flatten_cons,
+    List.flatten_nil, List.append_nil, and_self]
+
+/-- generic form: a keyed map + `group_by_key` over `exec_par`'s split (any `n`) and over the single
+    sequential partition both panic or neither does, and the two groupings are the same rows
+    `(key, group)` — group contents in input order — up to the order of the rows (hash-map order). -/
+theorem groupPipeline_seq_eq_par {α : Type} (g : α → Option κ) (v : α → β) (xs : List α) (n : Nat) :
+    (groupPipeline (keyed g v) (sourceParts xs n) = none ↔ groupPipeline (keyed g v) [xs] = none) ∧
+    ∀ gp gq, groupPipeline (keyed g v) (sourceParts xs n) = some gp →
+      groupPipeline (keyed g v) [xs] = some gq → gp.Perm gq ∧ ∀ k, groupOf k gp = groupOf k gq := by
+  have hsame : (sourceParts xs n).flatten = [xs].flatten := by simp [sourceParts_flatten]
+  obtain ⟨h0, h1⟩ := groupPipeline_partition_independent g v (sourceParts xs n) [xs] hsame
+  refine ⟨h0, fun gp gq hp hq => ?_⟩
+  obtain ⟨hg, hm, n1, n2⟩ := h1 gp gq hp hq
+  exact ⟨groups_perm_of_groupOf_eq gp gq n1 n2 hm hg, hg⟩
+
+/-- C13 ("in both execution modes", `group_by_window`): for every partition count `n`,
+    `collect_par` (the engine's actual `sourceParts xs n`) and `collect_seq` (`[xs]`) panic together or
+    return the same `(window, group)` rows up to row order. -/
+theorem groupByWindow_seq_eq_par (size off : Nat) (xs : List (Timestamped β)) (n : Nat) :
+    (groupByWindow size off (sourceParts xs n) = none ↔ groupByWindow size off [xs] = none) ∧
+    ∀ gp gq, groupByWindow size off (sourceParts xs n) = some gp →
+      groupByWindow size off [xs] = some gq → gp.Perm gq ∧ ∀ w, groupOf w gp = groupOf w gq :=
+  groupPipeline_seq_eq_par (windowOf size off) (fun ev => ev.value) xs n
+
+/-- the keyed variant (`group_by_key_and_window`) -/
+theorem groupByKeyAndWindow_seq_eq_par (size off : Nat) (xs : List (κ × Timestamped β)) (n : Nat) :
+    (groupByKeyAndWindow size off (sourceParts xs n) = none ↔
+      groupByKeyAndWindow size off [xs] = none) ∧
+    ∀ gp gq, groupByKeyAndWindow size off (sourceParts xs n) = some gp →
+      groupByKeyAndWindow size off [xs] = some gq → gp.Perm gq ∧ ∀ kw, groupOf kw gp = groupOf kw gq :=
+  groupPipeline_seq_eq_par (keyWindowOf size off) (fun kv => kv.2.value) xs n
+
+/-- non-vacuity witnesses (kernel-evaluated): 3 elements over 2 partitions, `ts` below the offset;
+    keys are the windows of the timestamps, order and values kept; a run with an element that has no
+    window panics -/
+example : keyByWindowPar 10 25 (sourceParts [⟨7, 70⟩, ⟨27, 71⟩, ⟨8, 70⟩] 2)
+    = some [(⟨5, 15⟩, 70), (⟨25, 35⟩, 71), (⟨5, 15⟩, 70)] ∧
+    sourceParts [(⟨7, 70⟩ : Timestamped Nat), ⟨27, 71⟩, ⟨8, 70⟩] 2 = [[⟨7, 70⟩, ⟨27, 71⟩], [⟨8, 70⟩]] ∧
+    keyByKeyAndWindowPar 10 25 [[(1, ⟨7, 70⟩)], [((2 : Nat), ⟨8, 70⟩)]]
+      = some [((1, ⟨5, 15⟩), 70), ((2, ⟨5, 15⟩), 70)] ∧
+    keyByWindowPar 10 5 [[⟨30, 1⟩], [(⟨3, 2⟩ : Timestamped Nat)]] = none := by decide
 
 /-- non-vacuity witness: three partitions, `ts` below the offset, a repeated value; the model run returns
     two windows and `[5,15)` holds the two elements 7 and 8 fall into -/
